@@ -56,7 +56,39 @@ EndDiag == IF stage # "ok" \/ ~Complete THEN "ok"
            ELSE IF Permissive # {} THEN "C09/UnsatisfiableButPermissive"
            ELSE "ok"
 
-Known(d) == {}
+(* ---- known findings (known_findings.json), identified by the shape of the composition ------
+   Every member of NotAccepted must be explained by the finding's cause. *)
+Sub(i) == cur.subs[i]
+IsArrSub(S) == SHas(S, "type") /\ S.type = "array"
+ItemType(S) == IF SHas(S, "items") /\ SHas(S.items, "type") THEN S.items.type ELSE "none"
+IntFormats9 == {"int8", "uint8", "int16", "uint16", "int", "int32", "uint", "uint32", "int64", "uint64"}
+AllNever == \A p \in DOMAIN merges : merges[p] = "never"
+Known(d) ==
+    { k \in {"C09-array-item-conflict-rejects-empty-array", "C09-integer-formats-of-different-width-unsatisfiable",
+             "C09-enum-value-outside-nonzero-type-panics"} :
+        /\ d = "C09/ValidUnderAllSubschemasRejected"
+        /\ CASE k = "C09-array-item-conflict-rejects-empty-array" ->
+                 (* two array schemas whose item types differ: only [] satisfies both, and the merge
+                    reports the conjunction unsatisfiable *)
+                 /\ AllNever
+                 /\ \E i, j \in DOMAIN cur.subs : i # j /\ IsArrSub(Sub(i)) /\ IsArrSub(Sub(j))
+                        /\ ItemType(Sub(i)) # "none" /\ ItemType(Sub(j)) # "none"
+                        /\ ItemType(Sub(i)) # ItemType(Sub(j))
+                        /\ {ItemType(Sub(i)), ItemType(Sub(j))} # {"integer", "number"}
+                 /\ \A x \in NotAccepted : LET v == CandVal(x[2]) IN v.t = "arr" /\ Len(v.v) = 0
+             [] k = "C09-integer-formats-of-different-width-unsatisfiable" ->
+                 /\ AllNever
+                 /\ \E i, j \in DOMAIN cur.subs : i # j /\ SHas(Sub(i), "format") /\ SHas(Sub(j), "format")
+                        /\ Sub(i).format \in IntFormats9 /\ Sub(j).format \in IntFormats9
+                        /\ IntFormatType(Sub(i).format) # IntFormatType(Sub(j).format)
+             [] k = "C09-enum-value-outside-nonzero-type-panics" ->
+                 (* the merged schema excludes zero (minimum 1 / exclusiveMinimum 0), so a NonZero type is
+                    chosen, while the enumeration still lists 0: NonZero::new(0).unwrap() panics in TryFrom *)
+                 /\ \E i \in DOMAIN cur.subs : SHas(Sub(i), "enum")
+                        /\ \E a \in DOMAIN Sub(i).enum : JEq(Sub(i).enum[a], JInt(0))
+                 /\ \E i \in DOMAIN cur.subs :
+                        \/ (SHas(Sub(i), "minimum") /\ JEq(Sub(i).minimum, JInt(1)))
+                        \/ (SHas(Sub(i), "exclusiveMinimum") /\ JEq(Sub(i).exclusiveMinimum, JInt(0))) }
 End == /\ IsEvent("endcase")
        /\ (IF EndDiag = "ok" THEN nbad' = nbad
            ELSE /\ nbad' = nbad + 1
